@@ -204,7 +204,7 @@ pub fn run(ctx: &Ctx) {
 
     // (4-lite) the repository's own declaration of evalTCOExpression, exercised for real: first, because a
     // wrong declaration can abort the process
-    ctx.run_sub("repo-binding-eval", Plan::sample(t.pick(400, 20_000), 0.1), |rng, case| {
+    ctx.run_sub("repo-binding-eval", Plan::sample(t.pick(4_000, 20_000), 0.1), |rng, case| {
         let jets = gen::jets_of(Family::Elements);
         let ji = &jets[rng.usize_below(jets.len())];
         let spec = txgen::gen_tx(rng, 3, 3);
@@ -313,7 +313,7 @@ pub fn run(ctx: &Ctx) {
     });
     // (3) every jet through its Rust binding vs the C evaluator
     let all: Vec<JetRef> = Elements::ALL.iter().map(|j| JetRef::Elements(*j)).chain(Core::ALL.iter().map(|j| JetRef::Core(*j))).collect();
-    let reps: u64 = ctx.param_u64("jet_reps", t.pick(8, 100));
+    let reps: u64 = ctx.param_u64("jet_reps", t.pick(40, 200));
     ctx.run_sub("every-jet-rust-binding-vs-c", Plan::enumerate(all.len() as u64 * reps, 0.5), |rng, case| {
         let j = all[(case.idx % all.len() as u64) as usize];
         case.desc = format!("jet {:?}", j);
